@@ -44,7 +44,7 @@ pub const T_RMDIR_DEPS: &str = "rmdir-no-restart";
 
 /// what the generator avoids by default.  Remove an entry once the defect is fixed in /repo.
 // (T_RMDIR, T_PURE_RM, T_RECREATE, T_RMDIR_DEPS were repaired by "fix:" commits in /repo and are exercised again)
-pub const DEFAULT_AVOID: [&str; 3] = [T_FILTER, T_DEPFIX, T_NOPRUNE];
+pub const DEFAULT_AVOID: [&str; 2] = [T_DEPFIX, T_NOPRUNE];
 
 struct Witness {
     name: &'static str,
